@@ -133,6 +133,7 @@ func (k *KerberosProxy) forward(realm string, data []byte) (resp []byte, err err
 	}
 
 	replies := make(chan []byte, len(kdcs))
+	pending := 0
 	for i := range kdcs {
 		// over UDP the length prefix is removed, so there must be one
 		if kdcs[i].Proto == "udp" && len(data) < 4 {
@@ -160,17 +161,23 @@ func (k *KerberosProxy) forward(realm string, data []byte) (resp []byte, err err
 		}
 
 		kdcs[i].Conn = conn
+		pending++
 		go awaitReply(conn, kdcs[i].Proto == "udp", replies)
 	}
 
-	reply := <-replies
+	// wait for the first reply; only the lookups that were started answer, and
+	// a failed one (nil) must not hide the reply of another kdc
+	var reply []byte
+	for ; pending > 0 && reply == nil; pending-- {
+		reply = <-replies
+	}
 
-	// close all the connections and return the first reply
+	// close all the connections, the remaining lookups end on their own
+	// (the channel is buffered) and return the first reply
 	for kdc := range kdcs {
 		if kdcs[kdc].Conn != nil {
 			kdcs[kdc].Conn.Close()
 		}
-		<-replies
 	}
 
 	if reply != nil {
